@@ -291,7 +291,8 @@ class Gen:
                 add(s["ast"], s["text"], "val")
         if use_agg:
             for _ in range(r.randint(1, 2)):
-                fn = r.choice(["count*", "count", "count", "collect", "min", "max", "sum"])
+                fn = r.choice(["count*", "count", "count", "collect", "min", "max", "sum"] if final
+                              else ["count*", "count", "count", "min", "max", "sum"])   # a collected list has no fixed order
                 if fn == "count*":
                     add(["agg", "count*", False, ["lit", ["null"]]], "count(*)", "val")
                     continue
